@@ -419,6 +419,13 @@ def core_preconditions():
         ["forall", ["?z", "-", "t3"], ["and", ["not", ["=", "?z", "?x"]]]],
         ["forall", ["?z", "-", "t1"], ["and", ["not", ["=", "?z", "?x"]]]],
         ["forall", ["?z", "-", "t1"], ["or", ["=", "?z", "?x"], ["=", "?z", "?y"]]],
+        # the quantified variable reuses an action parameter's name (the inner binding wins)
+        ["forall", ["?x", "-", "t1"], ["and", ["q", "?x", "?y"]]],
+        ["forall", ["?y", "-", "t3"], ["or", ["p", "?y"], ["q", "?x", "?y"]]],
+        # a quantifier inside a quantified body; the inner body does not mention the outer variable (when it does the library
+        # raises KeyError at evaluation - an error, which C01 accepts for forms it cannot represent - so that is outside C02)
+        ["forall", ["?z", "-", "t1"], ["or", ["p", "?z"], ["forall", ["?w", "-", "t3"], ["and", ["q", "?w", "?x"]]]]],
+        ["forall", ["?z", "-", "t3"], ["and", ["forall", ["?w", "-", "t1"], ["or", ["not", ["q", "?y", "?w"]], ["p", "?w"]]], ["p", "?z"]]],
     ]
     for fa in foralls:
         out.append(("P2", ["and", fa]))
